@@ -547,6 +547,13 @@ def rule_r4(rep, program: Program):
         conds = execution_condition(f.node, s, stop_at=(ast.FunctionDef,))
         extra = [(t, tr) for t, tr in conds if any(isinstance(n, ast.Name) and n.id in ("common_kwargs", "adapters", "kwargs", "trace_funcs") or (isinstance(n, ast.Constant) and n.value in ("adapters", "trace_funcs")) for n in ast.walk(t))]
         r.inst({"write-back runs under": [("" if tr else "not ") + norm(t)[:50] for t, tr in conds]})
+        # ... and it runs whenever the gathered results are collated: any further condition leaves some stage's
+        # advance of the worker copies unrecorded in the parent
+        gathers = [n for n in ast.walk(f.node) if isinstance(n, ast.Assign) and any(isinstance(c, ast.Call) and norm(c.func).endswith("results.get") for c in ast.walk(n.value))]
+        if not gathers:
+            raise AnalysisError("_sample_chains_parallel: results.get() gather not found")
+        gconds = {(norm(t), tr) for t, tr in execution_condition(f.node, gathers[0], stop_at=(ast.FunctionDef,))}
+        extra += [(t, tr) for t, tr in conds if (norm(t), tr) not in gconds and (t, tr) not in extra]
         if extra:
             txt = " and ".join(("" if tr else "not ") + f"({norm(t)})" for t, tr in extra)
             r.violate(PROP, f"_sample_chains_parallel:restore-conditional:{txt[:50]}", f"the generator states are written back only when `{txt}`: after a stage for which this does not hold (e.g. a warm-up stage without adapters) the parent's generators are not advanced, so the next stage replays the same random streams and parallel runs differ from sequential ones", node=s, file=f.file)
@@ -565,6 +572,12 @@ def rule_r4(rep, program: Program):
                 idx = norm(lp.target.elts[0])
                 if f"[{idx}]" in expand(norm(s.targets[0])):
                     ok = True
+                # the loop visits every gathered result: a slice / filter of the list leaves some generators behind
+                it = lp.iter
+                if isinstance(it, ast.Call) and call_name(it) in ("sorted", "list", "tuple", "reversed") and it.args:
+                    it = it.args[0]
+                if not isinstance(it, ast.Name):
+                    r.violate(PROP, f"_sample_chains_parallel:restore-partial:{norm(lp.iter)[:40]}", f"the write-back loop iterates over `{norm(lp.iter)[:60]}` rather than the complete list of gathered worker results: the generators of the chains left out are not advanced and replay their streams in the next stage", node=lp, file=f.file)
         if not ok:
             r.violate(PROP, f"_sample_chains_parallel:restore-binding:{norm(s)[:50]}", "the restored state is not the element returned for the same chain index by the workers", node=s, file=f.file)
     # per_chain_kwargs must be materialised so that the parent's generator objects are the ones updated
